@@ -742,6 +742,11 @@ func (c *c44ctx) corruptEnvelope(vc *vcase, rng *kernel.RNG, pub keypair.PublicK
 		out, ok := c.exercise(label, msg, pub)
 		if ok && out != nil {
 			if m2, err2, ok2 := c.decodeV(label+" re-encoded", out); ok2 && (err2 != nil || m2 == nil) {
+				if vb := vbftBlockOf(msg); vb != nil && (blockOffCurve(vb.Block) || blockOffCurve(vb.EmptyBlock)) {
+					run.Probe("off_curve_key_message_not_reframable")
+					c.fail(offCurveKeyPrefix+vbftKindNames[int(msg.Type())%vtNumKinds], "%s: DeserializeVbftMsg accepted a block carrying a public key that is not on its curve; its re-encoding is rejected: %v", label, err2)
+					return
+				}
 				c.fail("accepted-message-does-not-reencode", "%s: accepted message re-encodes to something DeserializeVbftMsg rejects: %v", label, err2)
 			}
 		}
